@@ -206,6 +206,7 @@ pub struct LeafMat {
     pub depth: u8,
     pub script: ScriptBuf,
     pub leaf_hash: TapLeafHash,
+    #[allow(dead_code)]
     pub control_block: ControlBlock,
     pub pol: Pol,
     /// indices (into InputMat.keys) of the keys of this leaf
